@@ -92,6 +92,7 @@ func checkC01(c *Ctx) {
 	c.checkPrototypes(br)
 	c.checkReadRetry()
 	c.checkSetupState()
+	c.checkNesting()
 
 	// ---- C01-TA
 	for _, f := range c.zygoFuncs() {
